@@ -1228,6 +1228,23 @@ func (c *fnCtx) call(call *ast.CallExpr) {
 			if _, ok := c.lits[v]; ok {
 				return // a local closure: its body is analysed where it stands, its parameters are bound to the arguments
 			}
+			if pi, isParam := c.params[v]; isParam {
+				// the function was handed in by the caller: resolved at the call site, which knows
+				// the argument; recorded with where each reference argument comes from
+				var parts []string
+				for j, a := range call.Args {
+					if t := c.typeOf(a); t == nil || isRef(t) {
+						var os []string
+						for o := range c.deep(a) {
+							os = append(os, o)
+						}
+						sort.Strings(os)
+						parts = append(parts, fmt.Sprintf("%d=%s", j, strings.Join(os, ",")))
+					}
+				}
+				c.eff.add(fmt.Sprintf("callparam|%d|%s", pi, strings.Join(parts, ";")), c.where(call))
+				return
+			}
 			c.funcValueCall(call, v)
 			return
 		}
@@ -1330,6 +1347,78 @@ func (c *fnCtx) mapEffects(call *ast.CallExpr, fn *types.Func, s effSet) {
 				}
 			} else if i < len(call.Args) {
 				c.write(c.origins(call.Args[i]), what, call)
+			}
+		case strings.HasPrefix(k, "callparam|"):
+			parts := strings.SplitN(k, "|", 3)
+			var pi int
+			fmt.Sscanf(parts[1], "%d", &pi)
+			resolved := false
+			if pi < len(call.Args) {
+				// a method value x.m of an in-package method, or an in-package function
+				var target *types.Func
+				var recvExpr ast.Expr
+				switch a := call.Args[pi].(type) {
+				case *ast.SelectorExpr:
+					if sl, ok := c.a.info.Selections[a]; ok && sl.Kind() == types.MethodVal {
+						if fn, ok := sl.Obj().(*types.Func); ok && fn.Pkg() == c.a.tp && c.a.decls[fn] != nil {
+							if _, isIface := sl.Recv().Underlying().(*types.Interface); !isIface {
+								target, recvExpr = fn, a.X
+							}
+						}
+					}
+				case *ast.Ident:
+					if fn, ok := c.a.info.Uses[a].(*types.Func); ok && fn.Pkg() == c.a.tp && c.a.decls[fn] != nil {
+						target = fn
+					}
+				}
+				if target != nil {
+					resolved = true
+					argOrig := map[int]orig{}
+					for _, item := range strings.Split(parts[2], ";") {
+						var j int
+						var list string
+						if n, _ := fmt.Sscanf(item, "%d=%s", &j, &list); n >= 1 {
+							o := orig{}
+							for _, x := range strings.Split(list, ",") {
+								if x == "" {
+									continue
+								}
+								if x == "fresh" || x == "unknown" {
+									o[x] = true
+								} else {
+									o.addAll(c.mapSide(call, sig, x))
+								}
+							}
+							argOrig[j] = o
+						}
+					}
+					for ek, ew := range c.a.summary(target, nil) {
+						w2 := "via " + target.Name() + " handed to " + fn.Name() + " (" + ew + ")"
+						switch {
+						case ek == "recv":
+							if recvExpr != nil {
+								o := c.deep(recvExpr)
+								o.addAll(c.locOriginsIfAddr(recvExpr))
+								c.write(o, w2, call)
+							}
+						case strings.HasPrefix(ek, "param:"):
+							var j int
+							fmt.Sscanf(ek, "param:%d", &j)
+							if o, ok := argOrig[j]; ok {
+								c.write(o, w2, call)
+							}
+						case strings.HasPrefix(ek, "retain|"), strings.HasPrefix(ek, "result|"), strings.HasPrefix(ek, "callparam|"):
+							if strings.HasPrefix(ek, "callparam|") {
+								c.eff.add("other:call of an unknown function value", c.where(call)+" "+w2)
+							}
+						default:
+							c.eff.add(ek, c.where(call)+" "+w2)
+						}
+					}
+				}
+			}
+			if !resolved {
+				c.eff.add("other:call of an unknown function value", c.where(call)+" "+what)
 			}
 		case strings.HasPrefix(k, "result|"):
 			// what a call returns is over-approximated at the call site (callOrigins)
@@ -1637,6 +1726,11 @@ func genEffects(p *pkg, out string) {
 		for _, e := range eks {
 			if strings.HasPrefix(e, "retain|") || strings.HasPrefix(e, "result|") {
 				continue // aliasing facts, used for the decoders below; every store is also a write effect
+			}
+			if strings.HasPrefix(e, "callparam|") {
+				e2 := "other:call of an unknown function value" // a read-only method that calls a function its caller chose
+				findings = append(findings, finding{k, e2, s[e]})
+				continue
 			}
 			if strings.HasPrefix(e, "param:") {
 				// the caller's own writer / buffer: WriteTo(w), dump(w), Dump(w, p), fill(b, i)
